@@ -26,4 +26,5 @@ PY
 fi
 VERIF_NO_CORPUS=${VERIF_NO_CORPUS:-1} MOUETTE_REPO="$D" VERIF_OUT_DIR="$D/out" /venv/bin/python check.py "$P" "$T" $CHECK_ARGS > "$D/log" 2>&1
 grep -E "VIOLATION|signature=|exit=|HARNESS" "$D/log" | head -6
+if [ -n "$KEEP_REPLAYS" ]; then mkdir -p "$KEEP_REPLAYS"; cp "$D"/out/replays/*.json "$KEEP_REPLAYS"/ 2>/dev/null; fi
 rm -rf "$D"
